@@ -120,6 +120,8 @@ def main(argv=None):
     if os.path.isdir(rdir) and not args.only:
         for fn in os.listdir(rdir):
             os.unlink(os.path.join(rdir, fn))
+    if tier == 'thorough':
+        opts['second_every'] = int(os.environ.get('VERIF_SECOND_EVERY', '12'))
     results = driver.run_all(entry['modules'], keys, timeout_ms, seed, opts,
                              workers=int(os.environ.get('VERIF_WORKERS', '16')))
 
@@ -310,8 +312,51 @@ def main(argv=None):
         lines.append('NOTE property=%s %d more refuted obligation groups not replayed in this run '
                      '(replay budget %d); listed in the evidence' % (pid, not_investigated, MAX_REPLAYS))
 
-    # ---- thorough extras (second opinions, seeds) are run by the entry hook
+    # ---- thorough extras
     extra = {}
+    thorough = {}
+    if tier == 'thorough':
+        # (a) second opinions of z3 4.8.12 and cvc5 on every k-th proved obligation
+        sec = [o['second'] for o in proved if o.get('second')]
+        tally = {}
+        for d in sec:
+            for k_, v_ in d.items():
+                tally.setdefault(k_, {}).setdefault(v_, 0)
+                tally[k_][v_] += 1
+        thorough['second_opinions'] = {'sampled': len(sec), 'results': tally}
+        if any(v_ == 'sat' for d in sec for v_ in d.values()):
+            lines.append('CHECKER-ERROR a second solver reports sat for an obligation z3 proved (see evidence)')
+            exit_code = 3
+        # (b) proof stability: the whole run again under another seed; an obligation proved
+        # under one seed only is reported (brittle), never counted as a violation
+        try:
+            res2 = driver.run_all(entry['modules'], keys, timeout_ms, seed + 1,
+                                  dict(opts, second_every=0), workers=int(os.environ.get('VERIF_WORKERS', '16')))
+            p1 = {o['name'] for o in proved}
+            p2 = {o['name'] for r in res2 for o in r['obligations']
+                  if o['kind'] != 'canary' and o['result'] == 'proved'}
+            all2 = {o['name'] for r in res2 for o in r['obligations'] if o['kind'] != 'canary'}
+            brittle = sorted((p1 - p2) & all2) + sorted((p2 - p1) & {o['name'] for o in obs})
+            thorough['stability'] = {'seeds': [seed, seed + 1], 'brittle': brittle[:50]}
+            for b_ in brittle[:10]:
+                lines.append('BRITTLE property=%s obligation=%s proved under one seed only' % (pid, b_))
+        except Exception as e:      # noqa
+            thorough['stability'] = {'error': repr(e)[:200]}
+        # (c) the native oracle of the property over its larger (thorough) bound, for every
+        # property that has one (labelled bounded, never counted as proved)
+        if replay_mod and not entry.get('bounded_hook'):
+            skip_sigs = [f.get('witness_signature') for f in known if f.get('status', 'open') == 'open'
+                         and f.get('witness_signature')]
+            out = native(replay_mod, {'mode': 'search', 'property': pid, 'obligation': {}, 'seed': seed,
+                                      'tier': 'thorough', 'skip_signatures': skip_sigs}, timeout=1800)
+            thorough['native_search'] = {'status': out.get('status'), 'tried': out.get('tried')}
+            if out.get('status') == 'reproduced':
+                ob_ = {'name': 'thorough-native[%s]' % pid, 'kind': 'bounded', 'role': 'prop',
+                       'result': 'native', 'contract': None}
+                path_ = write_replay(pid, ob_, out)
+                lines.append('VIOLATION property=%s replay=%s' % (pid, path_))
+                violations += 1
+                exit_code = 1 if exit_code in (0, 1, 2) else exit_code
     hook = entry.get('thorough_hook')
     if tier == 'thorough' and hook:
         mod = importlib.import_module(hook)
@@ -394,6 +439,8 @@ def main(argv=None):
         if len(obs) <= 400 else 'omitted (%d obligations); see by_kind/by_result' % len(obs),
         'timeout_ms': timeout_ms,
     }
+    if thorough:
+        coverage['thorough'] = thorough
     coverage.update(extra.get('coverage', {}))
     ev = {'property_id': pid, 'tier': tier, 'seed': seed, 'level': level_out,
           'coverage': coverage, 'assumptions': assumptions, 'wall_s': round(wall, 2),
